@@ -603,35 +603,43 @@ class MPSBackendImpl:
         return results
 
 
-def permute_bitstrings(results: Results, perm: torch.Tensor) -> None:
-    if "bitstrings" not in results.get_result_tags():
-        return
-    uuid_bs = results._find_uuid("bitstrings")
+def _tags_with_base(results: Results, base_tag: str) -> list[str]:
+    # an observable created with a tag_suffix is stored under "<base_tag>_<tag_suffix>"
+    return sorted(
+        tag
+        for tag in results.get_result_tags()
+        if tag == base_tag or tag.startswith(base_tag + "_")
+    )
 
-    results._results[uuid_bs] = [
-        Counter({optimat.permute_string(bstr, perm): c for bstr, c in bs_counter.items()})
-        for bs_counter in results._results[uuid_bs]
-    ]
+
+def permute_bitstrings(results: Results, perm: torch.Tensor) -> None:
+    for tag in _tags_with_base(results, "bitstrings"):
+        uuid_bs = results._find_uuid(tag)
+
+        results._results[uuid_bs] = [
+            Counter(
+                {optimat.permute_string(bstr, perm): c for bstr, c in bs_counter.items()}
+            )
+            for bs_counter in results._results[uuid_bs]
+        ]
 
 
 def permute_occupations_and_correlations(results: Results, perm: torch.Tensor) -> None:
-    for corr in ["occupation", "correlation_matrix"]:
-        if corr not in results.get_result_tags():
-            continue
-
-        uuid_corr = results._find_uuid(corr)
-        corrs = results._results[uuid_corr]
-        results._results[uuid_corr] = (
-            [  # vector quantities become lists after results are serialized (e.g. for checkpoints)
-                optimat.permute_tensor(
-                    corr
-                    if isinstance(corr, torch.Tensor)
-                    else torch.tensor(corr, dtype=torch.float64),
-                    perm,
-                )
-                for corr in corrs
-            ]
-        )
+    for base_tag in ["occupation", "correlation_matrix"]:
+        for tag in _tags_with_base(results, base_tag):
+            uuid_corr = results._find_uuid(tag)
+            corrs = results._results[uuid_corr]
+            results._results[uuid_corr] = (
+                [  # vector quantities become lists after results are serialized (e.g. for checkpoints)
+                    optimat.permute_tensor(
+                        corr
+                        if isinstance(corr, torch.Tensor)
+                        else torch.tensor(corr, dtype=torch.float64),
+                        perm,
+                    )
+                    for corr in corrs
+                ]
+            )
 
 
 def permute_atom_order(results: Results, perm: torch.Tensor) -> None:
